@@ -46,6 +46,31 @@ def generate(rng, tier):
         cases.append({"kind": "tria", "family": "aniso_" + fam, "v": v, "t": t, "lump": rng.random() < 0.5,
                       "vdtype": "float64", "tdtype": "int64", "aniso": aniso, "aniso_smooth": rng.choice([0, 1, 3, 10])})
         k += 1
+    # thin but valid triangles (zig-zag strips of caps and needles, smallest angle 1e-2 .. 1e-5): the measure of an element
+    # must come from a formula that survives them, in single and in double precision
+    for k in range(10 if tier == "quick" else 80):
+        N = rng.randint(2, 7)
+        w = rng.choice([0.3, 1.0, 2.5])
+        f32 = k % 2 == 0
+        h = w * (rng.choice([1e-2, 3e-3]) if f32 else rng.choice([1e-3, 1e-4, 1e-5]))
+        shape = rng.choice(["cap", "needle"])
+        if shape == "cap":
+            v = [[w * j, 0.0, 0.0] for j in range(N + 1)] + [[w * (j + 0.5), h, 0.0] for j in range(N)]
+        else:
+            v = [[h * j, 0.0, 0.0] for j in range(N + 1)] + [[h * (j + 0.5), w, 0.0] for j in range(N)]
+        t = []
+        for j in range(N):
+            t.append([j, j + 1, N + 1 + j])
+            if j + 1 < N:
+                t.append([N + 1 + j, j + 1, N + 2 + j])
+        if len(t) < 3:
+            continue
+        if rng.random() < 0.5:
+            v, _, _, _ = gm.similarity(v, rng, scale=1.0)
+        if f32:
+            v = np.array(v, dtype=np.float32).astype(float).tolist()
+        cases.append({"kind": "tria", "family": "thin_" + shape, "v": v, "t": t, "lump": rng.random() < 0.5,
+                      "vdtype": "float32" if f32 else "float64", "tdtype": "int64"})
     for c in cases:
         n = len(c["v"])
         c["f"] = [rng.uniform(-1, 1) for _ in range(n)]
